@@ -1050,6 +1050,21 @@ fn big_pool_probe(n: usize) -> (String, String) {
             exp.push('\n');
         }
     }
+    // ---- the boundary of the 16-bit immediate index: the literals at pool indices 65534, 65535 (last one that
+    // fits), 65536 (first one that does not; `as u16` would wrap it to constant #0) and 65537, of both pools;
+    // each as arithmetic right operand, comparison right operand, stored literal and pushed literal
+    for k in 65534i64..=65537 {
+        let d = nn - k; // early literal
+        src.push_str(&format!("let yb{k} = n - {d}\n"));
+        src.push_str(&format!("println(yb{k} + {k})\nprintln(yb{k} - {k})\nprintln(yb{k} == {k})\nprintln(yb{k} >= {k})\nprintln(yb{k} < {k})\n"));
+        src.push_str(&format!("var mb{k} = 0\nmb{k} = {k}\nprintln(mb{k})\nlet lb{k} = {k}\nprintln(lb{k})\nprintln({k})\n"));
+        exp.push_str(&format!("{}\n0\ntrue\ntrue\nfalse\n{k}\n{k}\n{k}\n", 2 * k));
+        let kf = k as f64 + 0.5;
+        src.push_str(&format!("let yf{k} = f[{k}]\n"));
+        src.push_str(&format!("println(yf{k} + {kf})\nprintln(yf{k} - {kf})\nprintln(yf{k} == {kf})\nprintln(yf{k} <= {kf})\nprintln(yf{k} > {kf})\n"));
+        src.push_str(&format!("let lf{k} = {kf}\nprintln(lf{k})\nprintln({kf})\n"));
+        exp.push_str(&format!("{}\n0\ntrue\ntrue\nfalse\n{kf}\n{kf}\n", kf + kf));
+    }
     // float power with a late exponent
     let kpf = 2.25f64;
     src.push_str(&format!("let b1 = f[1]\nlet b3 = f[3]\nprintln(b1 ^ {kpf})\nprintln(b3 ^ {kpf})\n"));
@@ -1099,11 +1114,44 @@ fn expand_case(dump: &Dump, d: &abra_core::verif_asm::ProgramDump, name: &str, s
         return None;
     }
     let mut req = String::from("opt expand");
-    for v in ints.iter().skip(65536) {
-        req.push_str(&format!(" NI:{v}"));
+    // the pool index of every constant used by an immediate-operand instruction (the model decides what fits)
+    {
+        let ipos: std::collections::HashMap<i64, usize> = ints.iter().enumerate().map(|(i, v)| (*v, i)).collect();
+        let fpos: std::collections::HashMap<&String, usize> = floats.iter().enumerate().map(|(i, v)| (v, i)).collect();
+        let mut seen = std::collections::HashSet::new();
+        for l in last {
+            let Some(t) = instr_text(l) else { continue };
+            let nm = t.split('(').next().unwrap_or("");
+            if !nm.ends_with("Imm") {
+                continue;
+            }
+            if nm.ends_with("FloatImm") {
+                if let Some(q) = quoted(t) {
+                    if let Some(i) = fpos.get(&q.to_string()) {
+                        if seen.insert(format!("f{q}")) {
+                            req.push_str(&format!(" CF:{}:{i}", lit_token(q)));
+                        }
+                    }
+                }
+            } else if let Some(v) = t.trim_end_matches(')').rsplit(|c| c == ',' || c == '(').next().and_then(|x| x.trim().parse::<i64>().ok()) {
+                if let Some(i) = ipos.get(&v) {
+                    if seen.insert(format!("i{v}")) {
+                        req.push_str(&format!(" CI:{v}:{i}"));
+                    }
+                }
+            }
+        }
     }
-    for f in floats.iter().skip(65536) {
-        req.push_str(&format!(" NF:{}", lit_token(f)));
+    if name == "probebigpool" {
+        // the boundary literals must sit at pool indices 65534..65537 of both pools
+        for k in 65534usize..=65537 {
+            if ints.get(k) != Some(&(k as i64)) {
+                spec.push(format!("probebigpool: int pool index {k} holds {:?}, the probe expects the literal {k} there (boundary of the 16-bit immediate index)", ints.get(k)));
+            }
+            if floats.get(k).map(|s| s.as_str()) != Some(format!("{k}.5").as_str()) {
+                spec.push(format!("probebigpool: float pool index {k} holds {:?}, the probe expects the literal {k}.5 there", floats.get(k)));
+            }
+        }
     }
     for l in last {
         req.push(' ');
